@@ -31,7 +31,7 @@ def shards(tier):
 
 
 def required_classes(tier):
-    return ["cand:" + c for c in CLASSES] + ["suite:custom", "suite:basic", "suite:aug", "suite:pop", "reach:pairing-nonaccept", "reach:subgroup-reject", "reach:decode-reject"]
+    return ["cand:" + c for c in CLASSES] + ["cand:related-message", "soak:valid-public-keys", "suite:custom", "suite:basic", "suite:aug", "suite:pop", "reach:pairing-nonaccept", "reach:subgroup-reject", "reach:decode-reject"]
 
 
 def run(rec):
@@ -44,6 +44,10 @@ def run(rec):
     msgs = msg_pool(rng)
     order2 = params.BLS_H2 * R
     tors = {}
+    if rec.shard == 9 or not quick:
+        soak_keys(rec, cs, suites, rng)
+    else:
+        rec.case("soak:valid-public-keys", None, nontrivial=False)
     custom = bmon.custom_suites(cs)
     ckeys = list(custom)
     nbases = 3 if quick else 36
@@ -87,6 +91,16 @@ def run(rec):
         offer("other-key", bmon.m_sign(suite, sk2, m))
         m2 = m + b"\x00" if bi % 2 else (m[:-1] + bytes([m[-1] ^ 1]) if m else b"x")
         offer("other-message", bmon.m_sign(suite, sk, m2))
+        # messages RELATED to m: its digest, its hex digest, a prefix (a memo keyed by a digest of the message would confuse them)
+        import hashlib as _hl
+        if bi % 3 == 0:
+            long_m = m + rng.randbytes(300)
+            for rel in (_hl.sha256(long_m).digest(), long_m[:32]):
+                # first verify the long message's signature, then offer it for the related message
+                call(S.Verify, pk, long_m, bmon.m_sign(suite, sk, long_m))
+                rec.case("cand:related-message", ("vrel", suite, pk, rel), sample={"suite": suite, "candidate": "signature on a long message offered for its digest / prefix"})
+                call(S.Verify, pk, rel, bmon.m_sign(suite, sk, long_m))
+                call(S.Verify, pk, rel, bmon.m_sign(suite, sk, rel))
         for other in names:
             if other != suite:
                 offer("other-suite", bmon.m_sign(other, sk, m))
@@ -165,6 +179,28 @@ def run(rec):
         # 10. wrong lengths (not 96 bytes)
         for cand in (canon[:95], canon + b"\x00", b"\x00" + canon, b"", canon[:48]):
             offer("length", cand)
+
+
+def soak_keys(rec, cs, suites, rng):
+    """More distinct valid public keys than a bounded table holds, then the first signer again: the canonical signature must still
+    verify and another key's signature must still be refused."""
+    import py_ecc.bls.g2_primitives as gp
+    from .common import soak_size, soak_then_reprobe
+    E1m, G1m = params.BLS_E1, params.bls_generators()[0]
+    skA, skB, m = rng.randrange(1, R), rng.randrange(1, R), b"signed before the soak"
+    pkA = bmon.register_key(skA)
+    bmon.register_key(skB)
+    S = suites["basic"]
+
+    def valid_keys():
+        Pt = E1m.mul(G1m, rng.randrange(1, R))
+        while True:
+            Pt = E1m.add(Pt, G1m)
+            kb = Z.enc_g1(Pt)
+            yield (lambda kb=kb: call(gp.pubkey_to_G1, kb))
+    probes = [lambda: call(S.Verify, pkA, m, bmon.m_sign("basic", skA, m)), lambda: call(S.Verify, pkA, m, bmon.m_sign("basic", skB, m)),
+              lambda: call(suites["pop"].PopVerify, pkA, bmon.m_pop(skA))]
+    soak_then_reprobe(rec, "valid-public-keys", probes, valid_keys(), soak_size(["py_ecc.bls.g2_primitives", "py_ecc.bls.ciphersuites", "py_ecc.bls.point_compression"]))
 
 
 def replay(rec, case):
